@@ -290,7 +290,7 @@ package stake
 //@   assumes cons_ok && blockHeight == bheight(blockCtx)
 //@   requires blockCtx != nil && blockCtx.GovHandler != nil && bheight(blockCtx) >= 1 && bheight(blockCtx) < 2^62
 //@   modifies everything
-//@   preserves StakeCtrler.delegateeLedger, StakeCtrler.frozenLedger, StakeCtrler.rewardLedger, StakeCtrler.govParams, StakeCtrler.stakeLimiter, BlockContext.*, cons_ok, blockHeight, govRwdPerPower, govLazyReward, govSignedWindow, govMinSigned, govSlashRatio
+//@   preserves ctrler.delegateeLedger, ctrler.frozenLedger, ctrler.rewardLedger, ctrler.govParams, ctrler.stakeLimiter, cons_ok, blockHeight
 //@   assert@call(doPunish,0): $arg2 == govSlashRatio[blockCtx.GovHandler]                                     [C14]
 //@   assert@call(ImmutableLedgerAt,0): $arg0 == (bheight(blockCtx) - 4 >= 1 ? bheight(blockCtx) - 4 : 1)           [C13]
 //@   assert@call(doRewardTo,0): vote.SignedLastBlock && $arg2 == bheight(blockCtx)                              [C13]
